@@ -153,6 +153,11 @@ def small_specs():
     return out
 
 
+def medium_specs():
+    """none, predicates, and the include / exclude lists with <= 1 or >= 5 of the six names."""
+    return [sp for sp in all_specs() if sp[0] in ("none", "predicate") or len(sp[1]) <= 1 or len(sp[1]) >= 5]
+
+
 def spec_kwargs(spec):
     if spec[0] == "none":
         return {}
@@ -378,7 +383,7 @@ class C14(Property):
 
     def bounds(self, tier):
         b = ({"depth": 0, "history_depth": 2, "defcon": "small"} if tier == "quick"
-             else {"depth": 0, "history_depth": 3, "defcon": "all"})
+             else {"depth": 0, "history_depth": 3, "defcon": "medium"})
         if os.environ.get("C14_ONLY"):
             b["only"] = os.environ["C14_ONLY"]
         return b
@@ -386,16 +391,14 @@ class C14(Property):
     def initial(self, b):
         out = []
         small = small_specs()
+        other = small if b["defcon"] == "small" else medium_specs()   # quick / thorough
         for cfg in CONFIG:
             for spec in all_specs():
                 out.append([{"filter": cfg, "spec": spec, "mode": "copy", "module": "ufoLib2"}])
-                if b["defcon"] == "all":
-                    out.append([{"filter": cfg, "spec": spec, "mode": "copy", "module": "defcon"}])
-            for spec in small:
+            for spec in other:
                 out.append([{"filter": cfg, "spec": spec, "mode": "inplace", "module": "ufoLib2"}])
                 out.append([{"filter": cfg, "spec": spec, "mode": "inplace", "module": "defcon"}])
-                if b["defcon"] != "all":
-                    out.append([{"filter": cfg, "spec": spec, "mode": "copy", "module": "defcon"}])
+                out.append([{"filter": cfg, "spec": spec, "mode": "copy", "module": "defcon"}])
         only = b.get("only")
         if only:  # developer aid (mutant triage): restrict to states whose description matches
             import re
